@@ -110,7 +110,7 @@ CHECKS["C01"] = dict(
 CHECKS["C15"] = dict(
     category="proof",
     text="The real XML writer is executed symbolically over writer histories on the abstract file system: the same writer writing twice, a second writer with another decimal precision (2, 7) constructed in between, and overwrite mode SKIP on an existing (real temporary) file. Postconditions: the second document is identical to the first (date aside) with the same number of elements; the document equals that of an identically constructed writer used alone (float_to_str is a function of value and precision, so a leaked precision shows as a different text term); under SKIP no write reaches the path and the real file is byte-for-byte unchanged.",
-    note="XML writer only - the protobuf writer (which re-creates its message per write) is not under contract; the module-global precision is modelled as a class-attribute overlay; documents compared as abstract trees (text of numbers compared by value and lexical class)",
+    note="both writers: the XML histories as described; for the protobuf writer (message trees on the pbmodel) the history write_to_file / write_scenario_to_file / write_to_file on one writer object and an XML writer with another precision constructed and used in between, each document compared field by field with the one an identically constructed writer produces alone; SKIP also with the default file name (filename=None, a real file in a scratch working directory) for both formats; not enumerated: all interleavings beyond these histories (finite set of histories, stated); functools.lru_cache and other memoising wrappers are unsupported (such a change makes the check exit 2 = undecided); the module-global precision is modelled as a class-attribute overlay; documents compared as abstract trees (text of numbers compared by value and lexical class)",
     technique="deductive: AST symbolic execution of real writer source over operation histories with an abstract file system, frame/non-interference postconditions discharged by z3",
     design_ref="5/C15",
 )
@@ -118,7 +118,7 @@ CHECKS["C15"] = dict(
 CHECKS["C18"] = dict(
     category="proof",
     text="Read-only operations are executed symbolically from the real source on scenarios / planning problems with symbolic content and the observable view (all constructor-visible attributes of every reachable object; declared caches and derived geometry excluded) is compared before and after: occupancy_at_time for every obstacle role (incl. trajectories of states without an orientation attribute), occupancies_at_time_step, obstacle_states_at_time_step, find_lanelet_by_position, traffic-light state, lanelet distance / polygon, GoalRegion.is_reached (point-mass state), __eq__ / __hash__ of scenario and planning-problem set, deepcopy, LaneletNetwork.__getstate__, and writing to XML. Postcondition view' == view (tolerance 0), discharged by z3.",
-    note="drawing / rendering (matplotlib) and protobuf export are not under contract; pickling is covered through __getstate__/__setstate__ only; 'exporting before and after gives the same file' follows from view equality plus C15",
+    note="drawing / rendering (matplotlib) is not under contract, and numpy views are modelled as copies, so a write through a view that aliases model data (e.g. ascontiguousarray of a slice) is outside the encoding; protobuf export IS under contract (pbmodel); the scenario id carries an unsorted prediction-id list and the network a lanelet built with default arguments so that in-place normalisations show; pickling is covered through __getstate__/__setstate__ only; 'exporting before and after gives the same file' follows from view equality plus C15",
     technique="deductive: frame condition (modifies nothing observable) by AST symbolic execution of real source with structural snapshots, discharged by z3",
     design_ref="5/C18",
 )
@@ -145,6 +145,14 @@ CHECKS["C13"] = dict(
     note="str(int) is the canonical decimal text and int() inverts it (assumed); string concatenation / join / split / replace / re.sub on token strings modelled at character level and refused where an atom could contain the character; vehicle and cost ids enter the framing contract as atoms over the finite id sets proved by the per-pair contracts (modular); at most 3 prediction ids and 3 planning-problem solutions (structure bound)",
     technique="deductive: AST symbolic execution of the real print/parse code on token strings + regular-language decision (NFA product, inclusion and group unambiguity) against the real compiled pattern; finite enumerations by exhaustion; z3 for the integer equalities",
     design_ref="5/C13",
+)
+
+CHECKS["C02"] = dict(
+    category="proof",
+    text="The real ProtobufFileWriter (every XxxMessage.create_message) and ProtobufFileReader (every XxxFactory.create_from_message, incl. StateFactory class matching) are executed symbolically back to back on message trees built from the REAL descriptors of the generated *_pb2 classes (type checks, 32-bit ranges, presence, oneof, required fields as in the pure-python protobuf implementation the repository runs on). Content groups as in C01 (lanelet network with stop line, sign incl. virtual flag and first occurrences, light incl. offset/direction/active, intersection; static / dynamic (trajectory with signal states incl. horn, set-based) / phantom / environment obstacles; planning problems with interval- and region-valued goal states) plus: every object built through its public constructor with default arguments, and one trajectory per state class (PM, KS, KST, ST, STD, MB, ExtendedPM). Postcondition: structural equality of everything, reals IDENTICAL (tolerance 0); all reals, ids and time steps symbolic.",
+    note="the wire format is assumed: serialise/parse is the identity on (presence, values, order), doubles 64-bit (pbmodel, trusted; cross-checked natively against the real library by tools/native_all.py); preconditions: integers fit the format's 32-bit fields, enumeration members exist in the .proto (HEAVY_RAIN etc. do not), centre line = mean of the boundaries (the format stores only the boundaries), writer given author/affiliation/source/tags; a light without cycle reads back with an empty cycle (treated as the same content, both readers do this); structure bounds as in C01 (2-vertex boundaries, 2 trajectory states, 1-3 objects per kind). Known finding: KSTState trajectories cannot be written (no hitch_angle field in obstacle.proto).",
+    technique="deductive: AST symbolic execution of the real protobuf writer and reader on descriptor-driven message trees, exact round-trip postcondition discharged by z3",
+    design_ref="5/C02",
 )
 
 NOT_YET = {}
